@@ -195,6 +195,23 @@ fn leaves_closure(body: &Expr) -> bool {
     v.0
 }
 
+fn block_leaves(b: &Block) -> bool {
+    struct V(bool);
+    impl<'ast> Visit<'ast> for V {
+        fn visit_expr_return(&mut self, _r: &'ast ExprReturn) {
+            self.0 = true;
+        }
+        fn visit_expr_try(&mut self, _r: &'ast ExprTry) {
+            self.0 = true;
+        }
+        fn visit_expr_closure(&mut self, _c: &'ast ExprClosure) {}
+        fn visit_item(&mut self, _i: &'ast Item) {}
+    }
+    let mut v = V(false);
+    v.visit_block(b);
+    v.0
+}
+
 /// A1: parameter names, then `let` / `for` / `if let` / match-arm bound names, in source order
 fn fn_locals(sig: &Signature, block: Option<&Block>) -> Vec<String> {
     struct L {
@@ -313,6 +330,18 @@ struct FileCtx<'a> {
     field_types: HashMap<String, String>,
     /// unit id -> parameter / local names in declaration order (rule A1)
     locals_out: BTreeMap<String, Vec<String>>,
+    /// I1: same-file helpers without a contract whose body is written out at their call sites
+    inline_map: HashMap<String, InlineInfo>,
+    no_inline: bool,
+}
+
+#[derive(Clone)]
+struct InlineInfo {
+    /// (name, rendered type, `mut`)
+    params: Vec<(String, String, bool)>,
+    ret: Option<String>,
+    body: String,
+    world: String,
 }
 
 impl<'a> FileCtx<'a> {
@@ -859,6 +888,40 @@ impl<'a, 'b, 'ast> Visit<'ast> for BodyV<'a, 'b> {
 
     fn visit_expr_call(&mut self, e: &'ast ExprCall) {
         let awaited = std::mem::replace(&mut self.awaited_call, false);
+        // I1: write an auto-included helper out at its call site
+        if let Expr::Path(ep) = &*e.func {
+            if ep.path.segments.len() == 1 && ep.qself.is_none() && !self.fc.no_inline {
+                let n = ep.path.segments[0].ident.to_string();
+                if let Some(info) = self.fc.inline_map.get(&n).cloned() {
+                    if (info.world == "none" || info.world == self.world) && info.params.len() == e.args.len() && !self.nested_units.contains_key(&format!("{}/{}", self.outer_name, n)) {
+                        let whole = range_of(e);
+                        let mut lets = String::new();
+                        for (k, (pn, ty, m)) in info.params.iter().enumerate() {
+                            lets.push_str(&format!("let {}{}: {} = __i{}; ", if *m { "mut " } else { "" }, pn, ty, k));
+                        }
+                        let inner = match &info.ret {
+                            Some(t) => format!("{{ {lets}let __r: {t} = {}; __r }}", info.body),
+                            None => format!("{{ {lets}{} }}", info.body),
+                        };
+                        if e.args.is_empty() {
+                            self.fc.edit(whole.0, whole.1, format!("({inner})"), "I1.inline_helper");
+                        } else {
+                            let ranges: Vec<(usize, usize)> = e.args.iter().map(|a| range_of(a)).collect();
+                            self.fc.edit(whole.0, ranges[0].0, "({ let __i0 = ", "I1.inline_helper");
+                            for k in 1..ranges.len() {
+                                self.fc.edit(ranges[k - 1].1, ranges[k].0, format!("; let __i{k} = "), "I1.inline_helper");
+                            }
+                            self.fc.edit(ranges[ranges.len() - 1].1, whole.1, format!("; {inner} }})"), "I1.inline_helper");
+                        }
+                        self.note_call(&n);
+                        for a in e.args.iter() {
+                            self.visit_expr(a);
+                        }
+                        return;
+                    }
+                }
+            }
+        }
         // R8: `spawn_blocking(|| BODY)` -> `spawned({ BODY })`, `spawn_blocking(|| BODY).await` ->
         // `awaited({ BODY })`: the blocking task's body is evaluated where it is spawned and the
         // handle holds its value (sequential model of the task; see shims/async_rt.rs)
@@ -2387,7 +2450,7 @@ fn main() {
                 }
             }
         }
-        let mut fc = FileCtx { cfg: &cfg, src: &src, edits: vec![], rule_counts: BTreeMap::new(), errors: vec![], warnings: vec![], degraded: vec![], extra_eff: extra_eff.clone(), fname: fname.clone(), ro_violations: vec![], field_types: field_types.clone(), locals_out: BTreeMap::new() };
+        let mut fc = FileCtx { cfg: &cfg, src: &src, edits: vec![], rule_counts: BTreeMap::new(), errors: vec![], warnings: vec![], degraded: vec![], extra_eff: extra_eff.clone(), fname: fname.clone(), ro_violations: vec![], field_types: field_types.clone(), locals_out: BTreeMap::new(), inline_map: HashMap::new(), no_inline: false };
         // segments to keep: (start, end, kind, name)
         let mut segs: Vec<(usize, usize, String, String)> = vec![];
         let mut found_units: HashSet<String> = HashSet::new();
@@ -2395,6 +2458,62 @@ fn main() {
         let mut dropped: Vec<String> = vec![];
         // items that exist but are compiled out in this flavour
         let mut cfg_off_items: HashSet<String> = HashSet::new();
+
+        // I1: a same-file helper function without a contract (auto-included), whose body has no
+        // `return` / `?`, no generics and only plain parameters, is ALSO written out at its call
+        // sites - `f(a, b)` -> `({ let __i0 = a; let __i1 = b; { let p: T = __i0; let q: U = __i1; BODY } })`
+        // (argument evaluation order and by-value passing as for a call) - so that extracting a
+        // helper out of a verified function does not cost the proof of its caller.  The helper
+        // itself is still emitted and verified on its own.
+        let mut preprocessed: HashSet<String> = HashSet::new();
+        for item in &file.items {
+            if let Item::Fn(f) = item {
+                let name = f.sig.ident.to_string();
+                let at = format!("fn:{}", name);
+                let u = match units.get(&at) {
+                    Some(u) if u.id.starts_with("auto:") && !u.drop_body => u.clone(),
+                    _ => continue,
+                };
+                if !cfg.env.attrs_on(&f.attrs).unwrap_or(false) {
+                    continue;
+                }
+                let simple_params = f.sig.inputs.iter().all(|a| match a {
+                    FnArg::Typed(pt) => matches!(&*pt.pat, Pat::Ident(pi) if pi.by_ref.is_none() && pi.subpat.is_none()),
+                    _ => false,
+                });
+                let mut ids = HashSet::new();
+                IdentScan { out: &mut ids }.visit_block(&f.block);
+                if !simple_params || !f.sig.generics.params.is_empty() || f.sig.asyncness.is_some() || block_leaves(&f.block) || ids.contains(&name) {
+                    continue;
+                }
+                found_units.insert(at.clone());
+                fc.no_inline = true;
+                process_fn(&mut fc, &f.attrs, &f.vis, &f.sig, Some(&f.block), &u, &nested, &name, false);
+                fc.no_inline = false;
+                make_pub(&mut fc, &f.vis, range_of(&f.sig).0);
+                let r = range_of(item);
+                segs.push((r.0, r.1, "fn".into(), u.id.clone()));
+                preprocessed.insert(name.clone());
+                let mut errs = vec![];
+                let (body, _) = apply_edits(&src, range_of(&*f.block), &fc.edits, &mut errs);
+                // the vacuity probe belongs to the helper's own copy only
+                let body: String = body.lines().filter(|l| !l.contains("// @VACUITY")).collect::<Vec<_>>().join("\n");
+                let mut params = vec![];
+                for a in f.sig.inputs.iter() {
+                    if let FnArg::Typed(pt) = a {
+                        if let Pat::Ident(pi) = &*pt.pat {
+                            let (ty, _) = apply_edits(&src, range_of(&*pt.ty), &fc.edits, &mut errs);
+                            params.push((pi.ident.to_string(), ty, pi.mutability.is_some()));
+                        }
+                    }
+                }
+                let ret = match &f.sig.output {
+                    ReturnType::Type(_, t) => Some(apply_edits(&src, range_of(&**t), &fc.edits, &mut errs).0),
+                    ReturnType::Default => None,
+                };
+                fc.inline_map.insert(name.clone(), InlineInfo { params, ret, body, world: u.world.clone() });
+            }
+        }
 
         for item in &file.items {
             let (attrs, name): (&[Attribute], String) = match item {
@@ -2580,6 +2699,9 @@ fn main() {
                 }
                 Item::Fn(f) => {
                     let at = format!("fn:{}", name);
+                    if preprocessed.contains(&name) {
+                        continue;
+                    }
                     if let Some(u) = units.get(&at).cloned() {
                         found_units.insert(at.clone());
                         // which nested units were found
